@@ -78,6 +78,11 @@ func firstLine(s string) string {
 
 // Solve runs the portfolio on a query text.
 func Solve(query string, name string, cfg *SolverCfg) *SolveResult {
+	return Solve2(query, "", name, cfg)
+}
+
+// Solve2: arithQuery (may be empty) is a sound weakening of query; only "unsat" from it counts.
+func Solve2(query, arithQuery string, name string, cfg *SolverCfg) *SolveResult {
 	h := sha1.Sum([]byte(name))
 	file := filepath.Join(cfg.WorkDir, fmt.Sprintf("q_%x.smt2", h[:8]))
 	q := query
@@ -86,7 +91,22 @@ func Solve(query string, name string, cfg *SolverCfg) *SolveResult {
 	}
 	solvers := cfg.Solvers
 	if len(solvers) == 0 {
-		solvers = []string{"z3new-e", "z3-e", "z3new", "cvc5"}
+		solvers = []string{"z3new-e", "z3-e", "z3new", "cvc5", "z3new-qf"}
+	}
+	qfFile := strings.TrimSuffix(file, ".smt2") + ".arith.smt2"
+	if arithQuery != "" {
+		os.WriteFile(qfFile, []byte(arithQuery), 0o644)
+		if !cfg.KeepAll {
+			defer os.Remove(qfFile)
+		}
+	} else {
+		var keep []string
+		for _, sv := range solvers {
+			if sv != "z3new-qf" {
+				keep = append(keep, sv)
+			}
+		}
+		solvers = keep
 	}
 	type ans struct {
 		solver, status, out string
@@ -100,7 +120,13 @@ func Solve(query string, name string, cfg *SolverCfg) *SolveResult {
 	for _, s := range solvers {
 		s := s
 		go func() {
-			cmd, cancel := solverCmd(s, file, cfg)
+			f := file
+			sname := s
+			if s == "z3new-qf" {
+				f = qfFile
+				sname = "z3new"
+			}
+			cmd, cancel := solverCmd(sname, f, cfg)
 			mu.Lock()
 			cancels = append(cancels, cancel)
 			cmds = append(cmds, cmd)
@@ -118,6 +144,9 @@ func Solve(query string, name string, cfg *SolverCfg) *SolveResult {
 				st = fl
 			case strings.Contains(out.String(), "timeout") || dt >= cfg.Timeout.Seconds()-0.05 || strings.Contains(out.String(), "interrupted"):
 				st = "timeout"
+			}
+			if s == "z3new-qf" && st != "unsat" {
+				st = "unknown" // only a proof counts from the weakened query
 			}
 			ch <- ans{s, st, out.String(), dt}
 		}()
@@ -197,8 +226,28 @@ func SolveAll(obls []*Obligation, cfg *SolverCfg, par int) {
 			goal := o.Goal
 			q := o.Ctx.Query(o.Hyps, goal, QueryOpts{ProduceModels: false})
 			q = "; obligation " + o.Name + "\n; " + strings.ReplaceAll(o.Text, "\n", " ") + "\n" + q
-			o.Result = Solve(q, o.Name, &c)
+			aq := ""
+			if !o.Cover && hasNonlinear(goal) {
+				aq = o.Ctx.QueryArith(o.Hyps, goal)
+			}
+			o.Result = Solve2(q, aq, o.Name, &c)
 		}()
 	}
 	wg.Wait()
+}
+
+// hasNonlinear: the goal multiplies or divides two non-literal terms (worth trying the arithmetic abstraction).
+func hasNonlinear(t *Term) bool {
+	if t == nil {
+		return false
+	}
+	if (t.Op == "*" || t.Op == "/") && t.Q == "" && len(t.Args) == 2 && !t.Args[0].lit && !t.Args[1].lit {
+		return true
+	}
+	for _, a := range t.Args {
+		if hasNonlinear(a) {
+			return true
+		}
+	}
+	return false
 }
